@@ -3,7 +3,7 @@
 import json, os, shutil, sys
 pid, v, breaks, needs, detected = sys.argv[1:6]
 missed = sys.argv[6] if len(sys.argv) > 6 else ''
-src = f'/tmp/seed/{pid}out/{v}'
+src = f'/tmp/seed2/{pid}out/{v}'
 dst = f'/verif/seeded/{pid}{v}'
 os.makedirs(dst, exist_ok=True)
 for f in ('patch.diff', 'demo.py', 'notes.md'):
@@ -13,10 +13,10 @@ meta = {
     'property': pid, 'variant': v, 'origin': 'independent sub-agent given only the property text and a scratch worktree',
     'breaks': breaks, 'needs_to_manifest': needs,
     'confirmed_by_me': {
-        'commands': [f'cd /tmp/seed/{pid}w && git apply patch.diff',
+        'commands': [f'cd /tmp/seed2/{pid}w && git apply patch.diff',
                      '/venv/bin/python demo.py (clean tree -> exit 0, patched -> exit 1)',
                      '/venv/bin/python -m pytest -q -p no:cacheprovider --timeout=900 --continue-on-collection-errors (patched)',
-                     f'VERIF_REPO=/tmp/seed/{pid}w bin/check {pid} quick (patched)'],
+                     f'VERIF_REPO=/tmp/seed2/{pid}w bin/check {pid} quick (patched)'],
         'log': log},
     'detected_by': detected,
 }
